@@ -44,6 +44,9 @@ def cases(draw):
     shape = [draw(st.integers(1, 4)) for _ in range(d)]
     if draw(st.booleans()):
         shape = [max(2, x) for x in shape]
+    if draw(st.integers(0, 3)) == 0:
+        # one long rank: multi-digit coordinates (10 sorts before 9 as text, not as a number)
+        shape[draw(st.integers(0, d - 1))] = draw(st.sampled_from([11, 12, 13]))
     which = draw(st.integers(0, 5))
     if which == 0:
         c["spec"] = draw(gen.tree_specs(shape=shape, defaults=(0, 0, 0, 2), max_elems=3, auth="any"))
@@ -300,6 +303,7 @@ def check(case, rec):
     rec.cls("noisy", noisy)
     rec.cls("estimated-shape", not auth)
     rec.cls("empty-tensor", not cont)
+    rec.cls("multi-digit-coordinates", any(c >= 10 for p in cont for c in p) and any(c < 10 for p in cont for c in p))
     rec.cls(f"depth{d}")
     rec.cls("transform-below-top", tdepth > 0)
     rec.nontrivial(len(cont) >= 3 and len(fibers_at) >= 2 and noisy)
